@@ -205,7 +205,7 @@ func (a *Analysis) analyze(f *Frame, entry State) *exitState {
 				break
 			}
 			if traceFn != "" && strings.Contains(FuncName(fn), traceFn) {
-				fmt.Fprintf(os.Stderr, "TRACE %s b%d %-60s | %s\n", FuncName(fn), b.Index, trunc(instr.String(), 60), strings.Join(a.Space.DescribeSet(st, 8), " || "))
+				fmt.Fprintf(os.Stderr, "TRACE %s b%d %-60s | %s\n", FuncName(fn), b.Index, trunc(instr.String(), 60), a.Space.Summary(st))
 			}
 			if a.Hook != nil {
 				st = a.Hook(a, f, instr, st)
@@ -332,7 +332,17 @@ func (a *Analysis) branch(f *Frame, cond ssa.Value, st State) (State, State) {
 		}
 		return nil, st
 	}
+	// a parameter bound to a constant by the calling context (start(false))
+	switch a.P.Canon(f, cond).S {
+	case "true":
+		return st, nil
+	case "false":
+		return nil, st
+	}
 	atom, mask, ok := a.literal(f, cond)
+	if traceFn != "" && strings.Contains(FuncName(f.Fn), traceFn) {
+		fmt.Fprintf(os.Stderr, "TRACE   cond %s matched=%v\n", a.P.Canon(f, cond).S, ok)
+	}
 	if !ok {
 		return st, st
 	}
